@@ -265,19 +265,25 @@ def build(S, tier):
 
         def py_call(self, I, args, kwargs):
             self.atoms.log.append(("call", self.name))
-            self.effect(I)
+            return self.effect(I)
 
         def py_getattr(self, I, name):
             if name == "integrate":
                 return self
             raise AttributeError(name)
 
-    def run_move(I, refuse_first=False):
+    def run_move(I, refuse_first=False, returns_something=False):
         atoms = AtomsMD(I)
         ctx = mk_ctx(I, atoms)
+        seen = {}
         def refresh(I_):
             atoms.momenta.data[:] = [I_.path.fresh(f"pr{i}") for i in range(atoms.k * 3)]
             atoms.momenta_version += 1
+            seen["ke_of_the_atoms_after_the_refresh"] = atoms.kinetic(I_)
+            if returns_something:
+                # a distribution is only asked to SET the momenta; whatever it returns (a diagnostic, the energy of its raw draw
+                # before constraints or rescaling, ...) is not the kinetic energy of the atoms
+                return I_.path.fresh("whatever_the_distribution_returns")
         def integ(I_):
             atoms.positions.data[:] = [I_.path.fresh(f"qi{i}") for i in range(atoms.k * 3)]
             atoms.momenta.data[:] = [I_.path.fresh(f"pi{i}") for i in range(atoms.k * 3)]
@@ -294,7 +300,7 @@ def build(S, tier):
             ctx.attrs["last_results"] = {}
             atoms.calc_results_restored = 0
         r = I.call(mv, [ctx], {})
-        return dict(r=r, atoms=atoms, ctx=ctx, ke_now=atoms.kinetic(I))
+        return dict(r=r, atoms=atoms, ctx=ctx, ke_now=atoms.kinetic(I), seen=seen)
 
     fq = HM + ".attempt_displacement"
     paths = S.explore(run_move, fq)
@@ -311,6 +317,23 @@ def build(S, tier):
         S.prove(f"{fq}#ensures.kinetic_reference_taken_after_refresh_before_integration@{i}",
                 log == [("call", "distribution"), ("get_kinetic_energy", 1), ("call", "integrate")] and v["r"] is True, kind="ensures", why=str(log))
         S.prove(f"{fq}#ensures.reference_stored_in_context@{i}", "last_kinetic_energy" in v["ctx"].attrs, kind="ensures")
+    # the VALUE of the reference: the kinetic energy the atoms carry after the refresh, also when the distribution returns a number
+    for rs in (False, True):
+        lab = fq + ("[distribution returns a value]" if rs else "[distribution returns None]")
+        for i, p in enumerate(S.explore(lambda I, rs=rs: run_move(I, False, rs), lab)):
+            S.adopt(p, prefix="[reference value]")
+            if p.status == "unsupported":
+                continue
+            if p.status != "return":
+                S.prove(f"{lab}#noraise@{i}", False, kind="noraise", why=f"raises {p.exc!r}")
+                continue
+            v = p.value
+            got = v["ctx"].attrs.get("last_kinetic_energy")
+            want = v["seen"].get("ke_of_the_atoms_after_the_refresh")
+            if got is None or want is None:
+                S.prove(f"{lab}#ensures.reference_kinetic_energy_is_that_of_the_atoms_after_the_refresh@{i}", False, kind="ensures", why=f"stored {got!r}")
+            else:
+                S.prove(f"{lab}#ensures.reference_kinetic_energy_is_that_of_the_atoms_after_the_refresh@{i}", to_z3(got, "real") == to_z3(want, "real"), hyps=p.pc)
     # a refused first attempt: the second attempt refreshes the momenta again and the reference is that of the second draw
     for i, p in enumerate(S.explore(lambda I: run_move(I, True), fq + "[retry]")):
         S.adopt(p, prefix="[retry]")
